@@ -122,6 +122,15 @@ def run_script(D, cn, sc, variant, islinear=0):
         raw, _ = S3.call("solve", S3.f0, float(c0.get("cfl", 1)), [], stop_of({"tot": et, "maxit": em}, U), directives=dirs(c0))
         raws.append(raw)
         rels.append({"type": "transparent", "a": len(raws), "b": 1, "c": 0})
+    # twin 2b: only the LAST save time asked for (same stop, fresh object): the snapshot at that time is the same, whatever other
+    # save times the first run was asked for (two in one step included)
+    if len(c0["tsave"]) >= 2 and c0["op"] != "legacy":
+        S3b = mk()
+        et, em = eff_stop(c0)
+        raw, _ = S3b.call("solve", S3b.f0, float(c0.get("cfl", 1)), [c0["tsave"][-1] / U], stop_of({"tot": et, "maxit": em}, U),
+                          directives=dirs(c0))
+        raws.append(raw)
+        rels.append({"type": "transparent", "a": len(raws), "b": 1, "c": 0})
     # twin 3: whole run for solve N ; restart M  (restart from the final state only)
     for j in range(1, len(calls)):
         if calls[j]["op"] == "restart" and calls[j]["cont"] and not calls[j - 1]["tsave"] \
